@@ -29,7 +29,14 @@ pub fn main(args: &[String]) {
         if line.is_empty() {
             continue;
         }
-        let dir = format!("{}/t{}", root, i);
+        // every third case names its directory by a detour (`<root>/nc<i>/../t<i>`): the same
+        // directory under a spelling that is not its canonical path, on every open of the case
+        let dir = if i % 3 == 1 {
+            let _ = std::fs::create_dir_all(format!("{}/nc{}", root, i));
+            format!("{}/nc{}/../t{}", root, i, i)
+        } else {
+            format!("{}/t{}", root, i)
+        };
         let _ = std::fs::remove_dir_all(&dir);
         std::fs::create_dir_all(&dir).unwrap();
         let r = catch_unwind(AssertUnwindSafe(|| run_trace(line, &dir))).unwrap_or_else(|_| {
